@@ -462,6 +462,7 @@ class Check:
         self.assumptions = []
         self.extra = {}
         self.dir = os.path.join(WORK, prop)
+        shutil.rmtree(os.path.join(self.dir, "violations"), ignore_errors=True)
         os.makedirs(self.dir, exist_ok=True)
         os.makedirs(os.path.join(WORK, "tlc"), exist_ok=True)
 
